@@ -20,6 +20,9 @@ class Unsupported(Exception):
 
 
 def E(tag, *args):
+    # one spelling for a conditional: `a if not c else b` and `b if c else a` (and the statement forms) are the same term
+    if tag == 'ite' and len(args) == 3 and isinstance(args[0], tuple) and args[0] and args[0][0] == 'notE':
+        return ('ite', args[0][1], args[2], args[1])
     return (tag,) + args
 
 
